@@ -98,6 +98,14 @@ class Recorder:
         self.known_hits: Counter = Counter()
         self.max_err: dict = {}
         self._cur_nontrivial = False
+        self.known_ids: set = set()  # ids listed as status=known in known_findings.json for this property
+
+    def excluded(self, finding_id: str) -> bool:
+        """For checks that can continue past a listed known finding: True (and counted) iff it is listed."""
+        if finding_id in self.known_ids:
+            self.known_hits[finding_id] += 1
+            return True
+        return False
 
     # -- called by check functions -------------------------------------------------------------
     def nontrivial(self, key) -> None:
@@ -290,6 +298,7 @@ def run_shard(args):
         prop: Prop = mod.PROP
         clause = prop.clauses[cname]
         known, _ = load_known(prop.pid)
+        rec.known_ids = set(known)
         sseed = stable_seed(seed, prop.pid, cname, shard)
         if clause.custom is not None:
             ctx = {"tier": tier, "seed": sseed, "shard": shard, "nshards": nshards, "rec": rec,
@@ -362,6 +371,7 @@ def replay_file(prop: Prop, path: Path, known: dict, recs: dict):
     if hasattr(sys.modules[prop.__module_name__], "decode_case"):
         case = sys.modules[prop.__module_name__].decode_case(cname, case)
     rec = recs.setdefault(cname, Recorder())
+    rec.known_ids = set(known)
     rec.label("replayed")
     return cname, case, guarded(clause, rec, known, case)
 
